@@ -22,6 +22,7 @@ import ast
 from .core import AnchorError, Unsupported
 from .e1_srcmodel import dotted, walk_no_nested, parent, ancestors
 from . import c13_sem as M
+from . import c13_len
 from .c13_sem import Lin, S, lin, show
 
 BULK = "pyyeti/nastran/bulk.py"
@@ -1193,9 +1194,29 @@ def r2_nonempty_vector(ctx):
     ctx.src.funcs_consulted.add(f"{WRITER}:vecwrite._get_itemi") if ctx.src.has_func(WRITER, "vecwrite._get_itemi") else None
     if acc is None:
         why.append("no accessor `[a[i]]` is reached by a zero-length vector")
+    # the common length of the arguments, decided on a finite world: lengths drawn from {scalar, 1, n} (and a second length m != n for the
+    # error) in every order, 2-3 arguments; the loop is evaluated concretely (lengths are only compared with 0 / 1 and with each other), the rows
+    # are counted where they are written
+    inst = ("vecwrite writes n rows when some argument has length n > 1 and the others are scalars or have length 1 or n, one row when there is "
+            "no such argument, and raises ValueError for two different lengths > 1 (argument lengths from {scalar, 1, n, m} in every order)")
+    try:
+        fw, fdetail = c13_len.evaluate(mw.tree)
+    except Exception as ex:      # the finite-world interpreter must never take the rule down
+        fw, fdetail = None, f"{type(ex).__name__}: {ex}"
+    if fw is False:
+        ctx.fail(inst, fn, fdetail + " (wtgrids with several grids and a one-element cd / seid list writes fewer GRID cards than rdgrids is to return)",
+                 key="C13-R2|vecwrite|rows written")
+    elif fw is True:
+        ctx.ok(inst, fn, fdetail)
+    elif not why:
+        ctx.note("C13-R2: the row count of vecwrite could not be evaluated on the finite world of argument lengths (" + str(fdetail) + "); the "
+                 "symbolic summary (count starts at 1, raised only by a longer vector) is what stands")
     if why:
+        if fw is False:
+            return
         ctx.error("vecwrite summary: `length` starts at 1 and is raised only by a vector longer than 1, and vector arguments are indexed with a[i]", fn,
-                  {"not derived": why, "note": "if vecwrite now accepts empty vectors the call-site guards are no longer required: re-derive this rule"})
+                  {"not derived": why, "note": "if vecwrite now accepts empty vectors the call-site guards are no longer required: re-derive this rule",
+                   "finite world of argument lengths": fdetail})
         return
     ctx.ok("vecwrite summary: `length` starts at 1 and is raised only by a vector longer than 1, and vector arguments are indexed "
            "with a[i] => a zero-length vector argument raises IndexError", fn)
@@ -3504,7 +3525,7 @@ def _has_thru(v):
 
 RULES = [
     ("C13-R1", r1_templates, 34),
-    ("C13-R2", r2_nonempty_vector, 4),
+    ("C13-R2", r2_nonempty_vector, 4),     # + 1: the row count on the finite world of argument lengths (when it can be evaluated)
     ("C13-R3", r3_reader_strides, 13),   # + 1 when the matrix type is set under a test of np.iscomplexobj
     ("C13-R4", r4_sequence_coverage, 9),
 ]
